@@ -12,9 +12,9 @@ func init() {
 	register(&propertyDef{
 		id:    "C03",
 		title: "the run result is the one the workflow's declarative meaning prescribes",
-		rules: []ruleFunc{c03R1, c03R2, c03R3, c03R4, c03R5, c03R6, c03R7},
+		rules: []ruleFunc{c03R1, c03R2, c03R3, c03R4, c03R5, c03R6, c03R7, c03R8},
 		decided: "necessary conditions only: unresolvable nodes never produce an output or a stage input (R1); the returned id and data come from the same workflow-output node (R2); when a stage output is produced every alternative output of that stage is marked unresolvable, the only skip being the produced one (R3); " +
-			"Execute has exactly one success return, guarded by the output-schema lookup and validation, all other returns carry an error and empty results (R4); the no-output-possible error is raised (R5 = C01.R6). Shared: every reference is wired into the DAG (R6 = C02.R2) and stage outputs are published before notification in one critical section (R7 = C02.R4).",
+			"Execute has exactly one success return, guarded by the output-schema lookup and validation, all other returns carry an error and empty results (R4); the no-output-possible error is raised (R5 = C01.R6). Every result-less return carries a provably non-nil error (R4). Shared: a stage is reported done only after its input was received (R8 = C12.R12); every reference is wired into the DAG (R6 = C02.R2) and stage outputs are published before notification in one critical section (R7 = C02.R4).",
 		notDecided: "which output wins among several producible ones, equality of the data with a reference evaluation of the expressions, unresolvability propagation inside dgraph (these need an interpreter and runs).",
 	})
 }
@@ -171,7 +171,7 @@ func c03R3(c *Ctx) {
 			skipParam = p
 		}
 	}
-	if skipParam == nil && len(fn.Params) == 4 {
+	if skipParam == nil && len(fn.Params) == 4 && fn.Params[3].Type().String() == "*string" {
 		skipParam = fn.Params[3]
 	}
 	isUnresolve := func(in ssa.Instruction) bool {
@@ -282,7 +282,7 @@ func c03R4(c *Ctx) {
 						return false
 					}
 					l, ok := ex.Tuple.(*ssa.Lookup)
-					return ok && l.CommaOk && loadedField(l.X) != nil && loadedField(l.X).Name() == "outputSchema"
+					return ok && l.CommaOk && loadedField(l.X) != nil && fieldName(loadedField(l.X)) == "outputSchema"
 				}) != nil
 				valOK := guardedBy(ret, false, func(cond ssa.Value) bool {
 					b, ok := cond.(*ssa.BinOp)
@@ -303,6 +303,9 @@ func c03R4(c *Ctx) {
 				idEmpty = true
 			}
 			c.verdict(idEmpty && isNilConst(res[1]), rule, key, c.instrPos(ret), "error return with empty id and nil data", "an error return carries an output id or data: the caller could take a failed run for a result")
+			okNN, whyNN := c.errorProvablyNonNil(fn, ret, res[2])
+			c.verdict(okNN, rule, key+"#error-non-nil", c.instrPos(ret), "the returned error cannot be nil ("+whyNN+")",
+				"this return has no output and an error value that can be nil ("+whyNN+"): Execute would report neither an output nor an error")
 		})
 	}
 	c.verdict(nSuccess == 1, rule, "single-success-return", "-", "exactly one success return", fmt.Sprintf("%d success returns found (expected exactly one)", nSuccess))
@@ -336,4 +339,83 @@ func (c *Ctx) isAllowedSkipTest(ifi *ssa.If, skipParam *ssa.Parameter, li *loopI
 		}
 	}
 	return false
+}
+
+// errorProvablyNonNil: the error operand of a result-less return is a freshly built error, is tested non-nil on the way
+// to the return, or is the result of the error drain right after an error was (re-)queued on every path.
+func (c *Ctx) errorProvablyNonNil(fn *ssa.Function, ret *ssa.Return, v ssa.Value) (bool, string) {
+	for i := 0; i < 4; i++ {
+		switch x := v.(type) {
+		case *ssa.MakeInterface:
+			v = x.X
+			continue
+		case *ssa.ChangeInterface:
+			v = x.X
+			continue
+		}
+		break
+	}
+	switch x := v.(type) {
+	case *ssa.Alloc:
+		return true, "a freshly allocated error value"
+	case *ssa.Call:
+		n := calleeName(x.Common())
+		if n == "fmt.Errorf" || n == "errors.New" {
+			return true, "built by " + n
+		}
+		// tested on the way?
+		if guardedBy(ret, true, func(cond ssa.Value) bool {
+			b, ok := cond.(*ssa.BinOp)
+			return ok && b.Op == token.NEQ && b.X == ssa.Value(x) && isNilConst(b.Y)
+		}) != nil || guardedBy(ret, false, func(cond ssa.Value) bool {
+			b, ok := cond.(*ssa.BinOp)
+			return ok && b.Op == token.EQL && b.X == ssa.Value(x) && isNilConst(b.Y)
+		}) != nil {
+			return true, "tested for nil before the return"
+		}
+		// the drain of the run's error queue: non-nil if an error was queued on every path since the last wait
+		callee := x.Common().StaticCallee()
+		if callee != nil && callee.Pkg == fn.Pkg {
+			var sel ssa.Instruction
+			eachInstr(fn, func(r instrRef) {
+				if s, ok := r.I.(*ssa.Select); ok && dominates(s, x) {
+					sel = s // the last dominating select in program order
+				}
+			})
+			if sel != nil {
+				isReport := func(in ssa.Instruction) bool {
+					call, ok := in.(*ssa.Call)
+					if !ok {
+						return false
+					}
+					for _, f := range c.CG().Callees(call) {
+						if c.reportsError(f) {
+							return true
+						}
+					}
+					return false
+				}
+				if c.findPath(fn, sel, isReport, func(in ssa.Instruction) bool { return in == ssa.Instruction(x) }) == nil {
+					return true, "the received error is queued again before the error queue is drained"
+				}
+			}
+			return false, "result of " + c.fnName(callee) + ", which is nil when no error is queued"
+		}
+		return false, "result of " + n
+	case *ssa.Extract:
+		if guardedBy(ret, true, func(cond ssa.Value) bool {
+			b, ok := cond.(*ssa.BinOp)
+			return ok && b.Op == token.NEQ && b.X == v && isNilConst(b.Y)
+		}) != nil {
+			return true, "tested for nil before the return"
+		}
+	case *ssa.Parameter, *ssa.Phi, *ssa.UnOp:
+		if guardedBy(ret, true, func(cond ssa.Value) bool {
+			b, ok := cond.(*ssa.BinOp)
+			return ok && b.Op == token.NEQ && b.X == v && isNilConst(b.Y)
+		}) != nil {
+			return true, "tested for nil before the return"
+		}
+	}
+	return false, "origin: " + valueOrigin(v)
 }
